@@ -234,6 +234,16 @@ func (fr *Frame) preludeCall(st *State, name string, fn *ssa.Function, args []Va
 		return Val{T: Eq(Select(ex.get(st, "SpawnFn", ArraySort(SInt, SInt)), args[0].T), IntLit(int64(id)))}, true
 	case "__sameArray":
 		return Val{T: And(Eq(SArr(args[0].T), SArr(args[1].T)), Eq(SOff(args[0].T), SOff(args[1].T)))}, true
+	case "__allocatedElemsKept":
+		// backing arrays that existed before the call keep their contents (only fresh arrays are written)
+		elem := cc.Args[0].Type().Underlying().(*types.Slice).Elem()
+		c, cs := ex.elemsComp(elem)
+		cur := ex.get(st, c, cs)
+		old := substPrefix(cur, "CUR.", "OLD.")
+		al := substPrefix(ex.get(st, "Alloc", ArraySort(SRef, SBool)), "CUR.", "OLD.")
+		rb := Bound{Name: ex.boundName("r"), Sort: SRef}
+		rv := V(rb.Name, SRef)
+		return Val{T: Forall([]Bound{rb}, Implies(Select(al, rv), Eq(Select(cur, rv), Select(old, rv))))}, true
 	case "__sameSlice":
 		return Val{T: Eq(args[0].T, args[1].T)}, true
 	case "__nilSlice":
